@@ -444,7 +444,10 @@ Injections(p) ==
      : l \in {x \in AllLists(p) : Len(ML(p, x)) >= 1 /\ Taggable(p, x)}}
   \* compact types untagged
   \cup {LET ms == ML(p, l) IN
-        [prog |-> SetML(p, l, [ms EXCEPT ![1].tag = <<FreshTag(ms)>>, ![1].type.opt = TRUE]), rule |-> "compact types untagged", codes |-> {"E015"}]
+        \* (the member's type stays as it is - making it optional could make the struct an illegal dictionary key elsewhere, a
+        \* second violation; a tag on a member that is not optional violates "tags only on optional members" as well)
+        [prog |-> SetML(p, l, [ms EXCEPT ![1].tag = <<FreshTag(ms)>>]), rule |-> "compact types untagged",
+         codes |-> IF ms[1].type.opt THEN {"E015"} ELSE {"E015", "E016"}]
      : l \in {x \in AllLists(p) : Len(ML(p, x)) >= 1 /\ InCompact(p, x)}}
   \* tags within 0..2^31-1
   \cup {LET ms == ML(p, l) IN
